@@ -167,7 +167,8 @@ func TestC05(t *testing.T) {
 			}
 		}
 		// drive every paused response to its end (the property assumes paused responses are eventually unpaused or cancelled)
-		for round := 0; round < 6 && inc == ""; round++ {
+		settled := 0
+		for round := 0; round < 12 && inc == ""; round++ {
 			if ok, why := w.Quiesce(); !ok {
 				inc = why
 				break
@@ -185,7 +186,23 @@ func TestC05(t *testing.T) {
 				}
 			}
 			if !progressed {
-				break
+				// a pause that was requested may only take effect a little later (the weak quiescent point can
+				// fall into a lull of the traversal): stop only after a window in which nothing happened at all
+				if ok, _ := w.Q.Sustained(time.Second); ok {
+					settled++
+					if settled >= 1 {
+						st := S.Impl.PeerState(R.ID).IncomingState.RequestStates
+						again := false
+						for _, id := range ids {
+							if st[id] == graphsync.Paused {
+								again = true
+							}
+						}
+						if !again {
+							break
+						}
+					}
+				}
 			}
 		}
 		apiCancel()
